@@ -165,6 +165,18 @@ Record attempt := {
   at_probe : bool            (* probe copy: requested server, NORETRY | NOCACHE *)
 }.
 
+(* server_probe_cb (fixes/C09-probe-pending-no-dangling.patch): when a probe copy ends, every
+   server whose probe_pending is set but which has no probe attached to one of its connections
+   any more gets the flag cleared *)
+Definition probe_attached (inflight : list attempt) (a : Z) : bool :=
+  existsb (fun x => at_probe x && (at_server x =? a)) inflight.
+
+Definition recompute_probe (inflight : list attempt) (l : list server) : list server :=
+  map (fun s => if sv_probe s && negb (probe_attached inflight (sv_addr s))
+                then {| sv_addr := sv_addr s; sv_idx := sv_idx s; sv_fail := sv_fail s;
+                        sv_retry := sv_retry s; sv_probe := false |}
+                else s) l.
+
 Record chan := {
   ch_servers : list server;
   ch_rotate : bool;
@@ -197,7 +209,9 @@ Inductive obs :=
 | OGood (addr : Z)                              (* server-state callback: success *)
 | OTx (label : nat) (addr : Z) (probe : bool)   (* a datagram of query [label] sent to [addr] *)
 | ODone (label : nat) (status : Z)              (* user callback of query [label] *)
-| OServers (addrs : list Z).                    (* the application installed a new server list *)
+| OServers (addrs : list Z)                     (* the application installed a new server list *)
+| OConnLost (addr : Z) (outstanding : bool).    (* the transport lost the connection to [addr] (closed by
+                                                   the peer, reset, ICMP error); queries were outstanding on it *)
 
 (* random values one ares_send_query may draw *)
 Record choices := { c_rot : Z; c_probe : Z }.
@@ -241,9 +255,9 @@ Definition requeue (ch : chan) (a : attempt) (status : Z) (c : choices) : outcom
   let try' := at_try a + 1 in
   if requeue_sends ch a then send_fresh ch (at_label a) try' err c
   else if at_probe a then
-    (* the probe ends: server_probe_cb clears probe_pending of the probed server
-       (fixes/C09-probe-pending-clear.patch; end_query(channel, NULL, ...) alone did not) *)
-    Ok (set_servers ch (clear_probe (at_server a) (ch_servers ch)), [])
+    (* the probe ends (it is no longer in flight in [ch]): server_probe_cb clears probe_pending
+       of the servers without a probe attached (end_query(channel, NULL, ...) alone did not) *)
+    Ok (set_servers ch (recompute_probe (ch_inflight ch) (ch_servers ch)), [])
   else
     Ok (ch, [ODone (at_label a) (if err =? ARES_SUCCESS then ARES_ETIMEOUT else err)]).
 
@@ -322,16 +336,17 @@ Definition nth_choice (cs : list choices) (n : nat) : choices :=
   nth n cs {| c_rot := 0; c_probe := 0 |}.
 
 (* ares_close_connection -> ares_requeue_queries: every query of the closed connection goes
-   through ares_requeue_query(status = ARES_SUCCESS, inc_try_count = TRUE) *)
-Fixpoint requeue_all (ch : chan) (vs : list attempt) (cs : list choices) (n : nat)
+   through ares_requeue_query(status, inc_try_count = TRUE); status = ARES_SUCCESS when the server
+   was removed, ARES_ECONNREFUSED when the connection failed *)
+Fixpoint requeue_all (status : Z) (ch : chan) (vs : list attempt) (cs : list choices) (n : nat)
   : outcome (chan * list obs) :=
   match vs with
   | [] => Ok (ch, [])
   | a :: r =>
     let ch0 := set_inflight ch (remove_attempt (at_label a) (ch_inflight ch)) in
-    do s <- requeue ch0 a ARES_SUCCESS (nth_choice cs n);
+    do s <- requeue ch0 a status (nth_choice cs n);
     (* a draw is consumed only by a query that is actually sent again *)
-    do t <- requeue_all (fst s) r cs (if requeue_sends ch0 a then S n else n);
+    do t <- requeue_all status (fst s) r cs (if requeue_sends ch0 a then S n else n);
     Ok (fst t, snd s ++ snd t)
   end.
 
@@ -346,7 +361,7 @@ Fixpoint remove_stale_pinned (ch : chan) (stale : list server) (cs : list choice
   | s :: r =>
     let ch1 := set_servers ch (remove_addr (sv_addr s) (ch_servers ch)) in
     let vs := filter (fun a => at_server a =? sv_addr s) (ch_inflight ch1) in
-    do x <- requeue_all ch1 vs cs n;
+    do x <- requeue_all ARES_SUCCESS ch1 vs cs n;
     do y <- remove_stale_pinned (fst x) r cs (n + length (filter (requeue_sends ch1) vs));
     Ok (fst y, snd x ++ snd y)
   end.
@@ -358,6 +373,8 @@ Fixpoint insert_by_label (a : attempt) (l : list attempt) : list attempt :=
   end.
 Definition sort_by_label (l : list attempt) : list attempt := fold_right insert_by_label [] l.
 
+Definition is_nil {A} (l : list A) : bool := match l with [] => true | _ => false end.
+
 Inductive event :=
 | EvSend (c : choices)                   (* a new user query (ares_send_dnsrec / ares_query) *)
 | EvAnswer (label : nat)                 (* the attempt in flight of query [label] is answered NOERROR *)
@@ -365,6 +382,8 @@ Inductive event :=
 | EvTimeout (label : nat) (c : choices)  (* ... times out *)
 | EvAdvance (ms : Z)                     (* the clock moves *)
 | EvCancel                               (* ares_cancel *)
+| EvConnLost (addr : Z) (cs : list choices)
+                                         (* the connection to [addr] fails or is closed by the peer *)
 | EvSetServers (addrs : list Z) (cs : list choices).
                                          (* ares_set_servers_*(); [cs]: draws of the re-queued attempts *)
 
@@ -382,7 +401,8 @@ Definition step (ch : chan) (ev : event) : outcome (chan * list obs) :=
     | Some a =>
       let ch0 := set_inflight ch (remove_attempt label (ch_inflight ch)) in
       (* server_set_good; end_query(channel, server, ...) *)
-      let l := clear_probe (at_server a) (server_set_good (at_server a) (ch_servers ch0)) in
+      let l0 := clear_probe (at_server a) (server_set_good (at_server a) (ch_servers ch0)) in
+      let l := if at_probe a then recompute_probe (ch_inflight ch0) l0 else l0 in
       let gobs := match find_addr (at_server a) (ch_servers ch0) with Some _ => [OGood (at_server a)] | None => [] end in
       Ok (set_servers ch0 l, gobs ++ (if at_probe a then [] else [ODone label ARES_SUCCESS]))
     end
@@ -403,18 +423,30 @@ Definition step (ch : chan) (ev : event) : outcome (chan * list obs) :=
            ch_inflight := ch_inflight ch; ch_next_label := ch_next_label ch |}, [])
   | EvCancel =>
     (* every query ends with ARES_ECANCELLED in the order of channel->all_queries (creation
-       order); a cancelled probe clears probe_pending of its server (server_probe_cb) *)
-    let l := fold_left (fun acc a => if at_probe a then clear_probe (at_server a) acc else acc)
-                       (ch_inflight ch) (ch_servers ch) in
+       order); the callback of a cancelled probe finds no query left and clears every probe_pending *)
+    let l := if existsb at_probe (ch_inflight ch) then recompute_probe [] (ch_servers ch) else ch_servers ch in
     Ok (set_inflight (set_servers ch l) [],
         map (fun a => ODone (at_label a) ARES_ECANCELLED)
             (sort_by_label (filter (fun a => negb (at_probe a)) (ch_inflight ch))))
+  | EvConnLost a cs =>
+    (* read_conn_packets reports the failed read (recv() == 0 included), read_answers then calls
+       handle_conn_error(conn, critical_failure = TRUE, ARES_ECONNREFUSED): the server is demoted
+       ONCE (server_increment_failures), then ares_close_connection re-queues every query that
+       was outstanding on the connection, in the order they were sent on it *)
+    match find_addr a (ch_servers ch) with
+    | None => Err Unsupported
+    | Some _ =>
+      let vs := filter (fun x => at_server x =? a) (ch_inflight ch) in
+      do l <- server_increment_failures (ch_now ch) (ch_delay ch) a (ch_servers ch);
+      do r <- requeue_all ARES_ECONNREFUSED (set_servers ch l) vs cs 0;
+      Ok (fst r, OConnLost a (negb (is_nil vs)) :: OFail a :: snd r)
+    end
   | EvSetServers addrs cs =>
     (* with fixes/C09-stale-servers-unlink-first.patch: all stale servers are unlinked first,
        then destroyed (connections closed, their queries re-queued) in list order *)
     let keep := servers_update (ch_servers ch) addrs in
     let vs := victims (servers_stale (ch_servers ch) addrs) (ch_inflight ch) in
-    do r <- requeue_all (set_servers ch keep) vs cs 0;
+    do r <- requeue_all ARES_SUCCESS (set_servers ch keep) vs cs 0;
     Ok (fst r, OServers addrs :: snd r)
   end.
 
@@ -512,6 +544,7 @@ Definition mon_step (m : monitor) (o : obs) : option monitor :=
     end
   | ODone _ _ => Some m
   | OServers addrs => Some {| m_rotate := m_rotate m; m_servers := mon_build (m_servers m) (dedup [] addrs) 0 |}
+  | OConnLost _ _ => Some m
   end.
 
 Fixpoint mon_run (m : monitor) (l : list obs) : option monitor :=
@@ -551,3 +584,20 @@ Fixpoint bmon_run (b : budget_mon) (l : list obs) : option budget_mon :=
 
 Definition bmon_init (addrs : list Z) (tries : Z) : budget_mon :=
   {| b_tries := tries; b_nsrv := length (dedup [] addrs); b_txs := [] |}.
+
+(* ------------------------------------------------------------------------------------ *)
+(* Third monitor: "each failure demotes the server".  When the transport loses a          *)
+(* connection on which queries were outstanding, the very next observation must be the     *)
+(* failure callback of that server (before any re-queued attempt is sent).                 *)
+(* ------------------------------------------------------------------------------------ *)
+Definition dmon_step (d : option Z) (o : obs) : option (option Z) :=
+  match d with
+  | Some a => match o with OFail b => if a =? b then Some None else None | _ => None end
+  | None => match o with OConnLost a true => Some (Some a) | _ => Some None end
+  end.
+
+Fixpoint dmon_run (d : option Z) (l : list obs) : option (option Z) :=
+  match l with
+  | [] => Some d
+  | o :: r => match dmon_step d o with Some d' => dmon_run d' r | None => None end
+  end.
